@@ -85,6 +85,7 @@ fn main() {
             };
             eprintln!("== {} {} ==", prop, tier.name());
             let (acc, sizes) = run_spaces(&p.spaces);
+            let caps: Vec<String> = acc.notes.keys().filter(|k| k.starts_with("CAP:") || k.starts_with("time cap")).cloned().collect();
             let out = Outcome {
                 acc,
                 spaces: sizes,
@@ -92,7 +93,7 @@ fn main() {
                 rule: p.rule,
                 assumptions: p.assumptions,
                 exhaustive: true,
-                caps_hit: vec![],
+                caps_hit: caps,
                 extra: [
                     ("largest_single_allocation_request_bytes".to_string(), serde_json::json!(bigalloc::BIGGEST.load(std::sync::atomic::Ordering::Relaxed))),
                     ("allocation_requests_over_16MiB".to_string(), serde_json::json!(bigalloc::BIG_REQUESTS.load(std::sync::atomic::Ordering::Relaxed))),
